@@ -97,6 +97,35 @@ func runOH(c *Ctx, s *Sink) {
 	}
 	n := 0
 	ast.Inspect(fd.Body, func(nd ast.Node) bool {
+		// the same dispatch written with a type assertion: if vt, isT := value.(T); … { store } else … { store }
+		if ifs, isIf := nd.(*ast.IfStmt); isIf {
+			if as, ok := ifs.Init.(*ast.AssignStmt); ok && len(as.Rhs) == 1 {
+				if _, isTA := ast.Unparen(as.Rhs[0]).(*ast.TypeAssertExpr); isTA {
+					stores := false
+					ast.Inspect(ifs, func(m ast.Node) bool {
+						if a2, ok := m.(*ast.AssignStmt); ok {
+							for _, l := range a2.Lhs {
+								if ix, ok := ast.Unparen(l).(*ast.IndexExpr); ok && rootObj(info, ix.X) == annot {
+									stores = true
+								}
+							}
+						}
+						return true
+					})
+					if stores {
+						n++
+						key := fmt.Sprintf("%s:value-dispatch#%d", base, n)
+						if definitelyStores(info, []ast.Stmt{ifs}, annot) {
+							s.Pass(nil, key, ifs.Pos(), "every branch of the dispatch stores the value")
+						} else {
+							s.Fail(nil, key, ifs.Pos(), "a parsed value is not stored on every branch of the dispatch on its type: the key=value pair is accepted and dropped — score=0.5 in an OBI-format title is lost when the record is read back")
+						}
+						return false
+					}
+				}
+			}
+			return true
+		}
 		ts, ok := nd.(*ast.TypeSwitchStmt)
 		if !ok {
 			return true
